@@ -4,6 +4,7 @@
 package backend
 
 import (
+	"context"
 	"sync"
 	"time"
 )
@@ -63,4 +64,13 @@ func RetryMinRevisionForVerif(i Backend) uint64 {
 		return b.asyncFifoRetry.MinRevision()
 	}
 	return 0
+}
+
+// RetryNowForVerif runs the repair of queued unknown-outcome writes that are due, synchronously
+func RetryNowForVerif(i Backend) {
+	if b, ok := i.(*backend); ok {
+		if r, ok := b.asyncFifoRetry.(interface{ RetryNowForVerif(ctx context.Context) }); ok {
+			r.RetryNowForVerif(context.Background())
+		}
+	}
 }
